@@ -192,7 +192,9 @@ func VStreamOK(r io.Reader) bool {
 	return 0 <= inPos(r) && inPos(r) <= inEnd(r) && inEnd(r) <= 1<<48
 }
 
-func outOK(w io.Writer) bool { return 0 <= outLen(w) && outLen(w) <= 1<<48 }
+func outOK(w io.Writer) bool {
+	return 0 <= outLen(w) && outLen(w) <= 1<<61 && 0 <= outCalls(w) && outCalls(w) <= 1<<61
+}
 
 // ---------------------------------------------------------------------------
 // Rules owned by CheckHeader (RFC 6455 §5.2, §5.4, §5.5), one predicate each.
@@ -402,3 +404,73 @@ func specMask64(m [4]byte) uint64 {
 //@   loop 4 split [x] 16 j-16
 //@   loop 4 assigns bytes(payload)
 //@   loop 4 decreases n - i
+
+//@ func WriteFrame
+//@   props C01 C06
+//@   requires [valid] validHdr(f.Header) && outOK(w) && len(f.Payload) <= 1<<47
+//@   ensures  [calls] result == nil ==> outCalls(w) == old(outCalls(w))+2
+//@   ensures  [len]   result == nil ==> outLen(w) == old(outLen(w))+specHdrLen(f.Header.Length, f.Header.Masked)+len(f.Payload)
+//@   ensures  [hdr]   result == nil ==> forall(0, specHdrLen(f.Header.Length, f.Header.Masked), func(k int) bool { return outByte(w, old(outLen(w))+k) == specHdrByte(f.Header, k) })
+//@   ensures  [payload] result == nil ==> forall(0, len(f.Payload), func(k int) bool { return outByte(w, old(outLen(w))+specHdrLen(f.Header.Length, f.Header.Masked)+k) == f.Payload[k] })
+//@   ensures  [keep]  forall(0, old(outLen(w)), func(k int) bool { return outByte(w, k) == old(outByte(w, k)) })
+//@   ensures  [atmost] outCalls(w) <= old(outCalls(w))+2 && outCalls(w) >= old(outCalls(w))+1
+//@   assigns stream(w)
+
+// ---------------------------------------------------------------------------
+// Frame mask / unmask helpers (C02, C17).
+
+func sameHdrExceptMask(a, b Header) bool {
+	return a.Fin == b.Fin && a.Rsv == b.Rsv && a.OpCode == b.OpCode && a.Length == b.Length
+}
+
+func sameSlice(a, b []byte) bool { return false }
+
+//@ func MaskFrameInPlaceWith
+//@   props C02 C06
+//@   ensures [hdr]  sameHdrExceptMask(result.Header, f.Header) && result.Header.Masked && result.Header.Mask == m
+//@   ensures [same] sameSlice(result.Payload, f.Payload)
+//@   ensures [xor]  forall(0, len(f.Payload), func(k int) bool { return f.Payload[k] == old(f.Payload[k])^m[VMaskIdx(0, k)] })
+//@   assigns bytes(f.Payload)
+
+//@ func MaskFrameInPlace
+//@   props C02 C06
+//@   ensures [hdr]  sameHdrExceptMask(result.Header, f.Header) && result.Header.Masked
+//@   ensures [same] sameSlice(result.Payload, f.Payload)
+//@   ensures [xor]  forall(0, len(f.Payload), func(k int) bool { return f.Payload[k] == old(f.Payload[k])^result.Header.Mask[VMaskIdx(0, k)] })
+//@   assigns bytes(f.Payload)
+
+//@ func UnmaskFrameInPlace
+//@   props C02
+//@   ensures [hdr]  sameHdrExceptMask(result.Header, f.Header) && !result.Header.Masked && result.Header.Mask == [4]byte{}
+//@   ensures [same] sameSlice(result.Payload, f.Payload)
+//@   ensures [xor]  forall(0, len(f.Payload), func(k int) bool { return f.Payload[k] == old(f.Payload[k])^f.Header.Mask[VMaskIdx(0, k)] })
+//@   assigns bytes(f.Payload)
+
+//@ func MaskFrameWith
+//@   props C02 C17
+//@   requires [len] len(f.Payload) <= 1<<47
+//@   ensures [hdr]  sameHdrExceptMask(result.Header, f.Header) && result.Header.Masked && result.Header.Mask == mask
+//@   ensures [fresh] fresh(result.Payload) && len(result.Payload) == len(f.Payload)
+//@   ensures [xor]  forall(0, len(f.Payload), func(k int) bool { return result.Payload[k] == f.Payload[k]^mask[VMaskIdx(0, k)] })
+//@   assigns nothing
+
+//@ func MaskFrame
+//@   props C02 C17
+//@   requires [len] len(f.Payload) <= 1<<47
+//@   ensures [hdr]  sameHdrExceptMask(result.Header, f.Header) && result.Header.Masked
+//@   ensures [fresh] fresh(result.Payload) && len(result.Payload) == len(f.Payload)
+//@   ensures [xor]  forall(0, len(f.Payload), func(k int) bool { return result.Payload[k] == f.Payload[k]^result.Header.Mask[VMaskIdx(0, k)] })
+//@   assigns nothing
+
+//@ func UnmaskFrame
+//@   props C02 C17
+//@   requires [len] len(f.Payload) <= 1<<47
+//@   ensures [hdr]  sameHdrExceptMask(result.Header, f.Header) && !result.Header.Masked && result.Header.Mask == [4]byte{}
+//@   ensures [fresh] fresh(result.Payload) && len(result.Payload) == len(f.Payload)
+//@   ensures [xor]  forall(0, len(f.Payload), func(k int) bool { return result.Payload[k] == f.Payload[k]^f.Header.Mask[VMaskIdx(0, k)] })
+//@   assigns nothing
+
+//@ func NewFrame
+//@   props C01 C06
+//@   ensures [f] result.Header.Fin == fin && result.Header.OpCode == op && result.Header.Rsv == 0 && !result.Header.Masked && result.Header.Length == int64(len(p)) && sameSlice(result.Payload, p)
+//@   assigns nothing
